@@ -11,6 +11,10 @@ from concurrent.futures import ThreadPoolExecutor
 
 TOKENS = ["from", "t", "select", "{", "}", "(", ")", "a", ",", "=", "==", "+", "-", "|", "1", "\"s\"", "null", "derive", "group", "take", "..", "let", "->", "\n"]
 
+TOKENS2 = ["select", "derive", "filter", "sort", "take", "group", "aggregate", "join", "window", "append", "a", "t.a", "this", "*", "t.*", "{", "}", "(", ")", "[", "]",
+           ",", "=", "==", "+", "-", "!", "??", "&&", "..", "1", "\"s\"", "null", "true", "case", "=>", "f\"{a}\"", "s\"x\"", "@2020-01-01", "$1", "sum", "u"]
+TOKENS3 = ["loop", "into", "let", "->", "|", "in", "that", "`a b`", "1.5", "2days", "%", "//", "~=", ":", "rolling:2", "side:left", "count", "std.sum", "\n", "r\"x\""]
+
 def run_shard(d, name, inputs, dialects, timeout=600):
     """run `pv totality` on inputs in a child process; a crash / time-out of the child is recorded as a
     Died event for the input it was working on, and the remaining inputs continue in a new child"""
@@ -128,6 +132,12 @@ def check(tier):
             inputs.append({"family": "tok", "kind": "src", "text": " ".join(tup)})
     for _ in range(4000 if tier == "quick" else 40000):
         inputs.append({"family": "tok", "kind": "src", "text": "from t | " + " ".join(rnd.choice(TOKENS) for _ in range(rnd.randint(2, 7)))})
+    # (b2) every continuation of `from t |` by up to three tokens of a wider vocabulary (transform names, `*`, this, literals of
+    # every kind, brackets, case, ranges, interpolated strings, parameters, keywords)
+    T2 = TOKENS2 if tier == "quick" else TOKENS2 + TOKENS3
+    for ln in range(1, 4):
+        for tup in itertools.product(T2, repeat=ln):
+            inputs.append({"family": "tok", "kind": "src", "text": "from t | " + " ".join(tup)})
     # (c) programs of the L1 machine incl. every scope-breaking edit, and random programs outside the safe profile
     m = model([from_("t")], l1props.alph_c10(), 3 if tier == "quick" else 4)
     progs, info = l1.mc_generate("C12-mc", m, dbset, workers=8)
